@@ -106,16 +106,16 @@ U_Chain(Dr, Dx, Dz, XK, ZB, XL) ==
 
 \* focus universes: one flag + metadata on all three levels (thorough: as is;
 \* quick: fewer Z decorations, X a mapping or a list)
-U_FocusPr   == U_Chain(U_DPr, U_DPr, U_DPr, {"dict", "list"}, U_ZSmall, U_XLeafSmall)
-U_FocusDel  == U_Chain(U_DDel, U_DDel, U_DDel, {"dict", "list", "call"}, U_ZFull, U_XLeaf)
-U_FocusNew  == U_Chain(U_DNew, U_DNew, U_DNew, {"dict", "list", "call"}, U_ZFull, U_XLeaf)
-U_FocusSafe == U_Chain(U_DSafe, U_DSafe, U_DSafe, {"dict", "list", "call"}, U_ZFull \cup {U_Call("vmod.rec", <<>>)}, U_XLeaf \cup {U_Call("vmod.rec", <<>>)})
+U_DPrR   == {U_None, U_D(1, "N", "N", "N", {}), U_D(1, "N", "N", "N", U_Md), U_D(-1, "N", "N", "N", U_Md), U_D(0, "N", "N", "N", U_Md)}
+U_FocusPr   == U_Chain(U_DPrR, U_DPr, U_DPr, {"dict", "list"}, U_ZSmall, U_XLeafSmall)
+U_FocusDel  == U_Chain(U_DDel, U_DDel, U_DDel, {"dict", "list"}, U_ZFull, U_XLeaf)
+U_FocusNew  == U_Chain(U_DNew, U_DNew, U_DNew, {"dict", "list"}, U_ZFull, U_XLeaf)
+U_FocusSafe == U_Chain(U_DSafe, U_DSafe, U_DSafe, {"dict", "list", "call"}, {U_I("1"), U_Null, U_EMap, U_Map1(U_KA, U_I("1")), U_Call("vmod.rec", <<>>)}, U_XLeaf \cup {U_Call("vmod.rec", <<>>)})
 
 U_DPrZ   == {U_D(p, "N", "N", "N", {}) : p \in U_PrVals} \cup {U_D(1, "N", "N", "N", U_Md)}
 U_DDelZ  == {U_D(PrNone, d, "N", "N", {}) : d \in U_Tri} \cup {U_D(PrNone, "T", "N", "N", U_Md)}
 U_DNewZ  == {U_D(PrNone, "N", a, "N", {}) : a \in U_Tri} \cup {U_D(PrNone, "N", "T", "N", U_Md)}
 U_DSafeZ == {U_D(PrNone, "N", "N", x, {}) : x \in U_Tri} \cup {U_D(PrNone, "N", "N", "T", U_Md)}
-U_DPrR   == {U_None, U_D(1, "N", "N", "N", {}), U_D(1, "N", "N", "N", U_Md), U_D(-1, "N", "N", "N", U_Md), U_D(0, "N", "N", "N", U_Md)}
 U_QFocusPr   == U_Chain(U_DPrR, U_DPr, U_DPrZ, {"dict", "list"}, {U_I("1"), U_Null}, {U_I("1"), U_Null})
 U_QFocusDel  == U_Chain(U_DDel, U_DDel, U_DDelZ, {"dict", "list"}, {U_I("1"), U_EList, U_List(<<U_I("1")>>)}, {U_Null, U_EList, U_EMap})
 U_QFocusNew  == U_Chain(U_DNew, U_DNew, U_DNewZ, {"dict", "list"}, {U_EMap, U_Map1(U_KA, U_I("1"))}, {U_I("1"), U_EMap})
@@ -134,7 +134,7 @@ U_DKind == {U_None, U_D(PrNone, "N", "N", "N", U_Md), U_D(1, "N", "N", "N", {}),
             U_D(1, "T", "N", "N", {}), U_D(PrNone, "F", "F", "N", U_Md)}
 U_DZKind == {U_None, U_D(1, "N", "N", "N", {}), U_D(PrNone, "T", "N", "N", {}), U_D(PrNone, "F", "N", "N", {}),
              U_D(PrNone, "N", "F", "N", {}), U_D(PrNone, "N", "N", "F", {}), U_D(PrNone, "N", "N", "N", U_Md)}
-U_DKindC == {U_None, U_D(1, "N", "N", "N", {}), U_D(PrNone, "F", "N", "N", U_Md)}
+U_DKindC == {U_None, U_D(1, "N", "N", "N", {}), U_D(PrNone, "F", "N", "N", U_Md), U_D(PrNone, "N", "F", "N", {})}
 U_DKindQ == {U_None, U_D(PrNone, "N", "N", "N", U_Md), U_D(1, "N", "N", "N", {}), U_D(PrNone, "T", "N", "N", {}), U_D(PrNone, "F", "N", "N", {}),
              U_D(PrNone, "N", "F", "N", {}), U_D(PrNone, "N", "N", "F", {}), U_D(1, "T", "N", "N", {})}
 U_DKindP == {U_None, U_D(1, "N", "N", "N", U_Md), U_D(PrNone, "T", "N", "N", U_Md)}
@@ -178,17 +178,20 @@ U_AllX  == U_Chain({U_None}, U_DAll, {U_None}, {"dict", "list"}, {U_I("1"), U_EL
 U_AllZd == U_Chain({U_None}, U_DParents, U_DAll, {"dict"}, {U_I("1")}, {})
 U_AllZl == U_Chain({U_None}, U_DParents, U_DAll, {"list"}, {U_I("1")}, {})
 U_AllZe == U_Chain({U_None}, U_DParents, U_DAll, {"dict"}, {U_EList}, {})
-U_Pairs2 == U_Chain({U_None, U_D(PrNone, "T", "N", "N", U_Md)}, U_DPairs, U_DPairs, {"dict", "list"}, {U_I("1"), U_EList}, {U_EList})
+U_Pairs2 == U_Chain({U_None}, U_DPairs, U_DPairs, {"dict", "list"}, {U_I("1"), U_EList}, {U_EList})
 U_TKinds == U_KindsOf({U_I("1"), U_Null, U_EList, U_Map1(U_KA, U_I("1"))}, U_DZKind, U_DKind, U_DKindQ, U_DKindP)
 
 ----------------------------------------------------------------------------
 \* context documents (what a target is merged with): values at key a
 
 U_T(sd, t) == WithTag(sd, t)
+\* `!del {}` of a context document carries a mark: AyMerge takes two structurally EQUAL empty containers for the one
+\* object `!clear` hands over (composed.py:308 compares identity), which would skip the remove-emptied rule
+U_CtxDelEmpty == U_Apply(U_EMap, U_D(PrNone, "T", "N", "N", {<<"z", Atom("i", "9")>>}))
 U_CtxA ==
     {U_I("5"), U_T(U_I("5"), "force"), U_T(U_I("5"), "weak"), U_T(U_I("5"), "notnew"), U_T(U_Null, "del"), U_S(""), U_Null,
      U_EMap, U_Map1(U_KA, U_I("5")), U_Map1(U_KB, U_I("5")), U_Map1(U_KA, U_Map1(U_KA, U_I("5"))), U_Map1(U_KA, U_Map1(U_KB, U_I("5"))),
-     U_Map1(U_KA, U_List(<<U_I("5"), U_I("6")>>)), U_Map1(U_KA, U_T(U_Null, "del")), U_Map1(U_KA, U_T(U_EMap, "del")),
+     U_Map1(U_KA, U_List(<<U_I("5"), U_I("6")>>)), U_Map1(U_KA, U_T(U_Null, "del")), U_Map1(U_KA, U_CtxDelEmpty),
      U_Map1(U_KA, U_EMap), U_Map1(U_KA, U_EList), U_Map1(U_KA, U_S("")),
      U_T(U_Map1(U_KB, U_I("5")), "del"), U_T(U_Map1(U_KA, U_I("5")), "force"), U_T(U_Map1(U_KA, U_I("5")), "weak"),
      U_T(U_Map1(U_KA, U_I("5")), "notnew"), U_Map1(U_KA, U_T(U_I("5"), "notnew")), U_Map1(U_KB, U_T(U_I("5"), "notnew")),
@@ -217,7 +220,7 @@ U_CtxBig == U_CtxDocs \ U_CtxSmall
 \* the quick tier's context documents
 U_CtxQA == {U_I("5"), U_T(U_I("5"), "force"), U_T(U_Null, "del"), U_S(""), U_T(U_Map1(U_KA, U_I("5")), "weak"),
             U_Map1(U_KB, U_I("5")), U_Map1(U_KA, U_Map1(U_KB, U_I("5"))), U_Map1(U_KA, U_List(<<U_I("5"), U_I("6")>>)),
-            U_Map1(U_KA, U_T(U_Null, "del")), U_Map1(U_KA, U_T(U_EMap, "del")), U_T(U_Map1(U_KA, U_I("5")), "notnew"),
+            U_Map1(U_KA, U_T(U_Null, "del")), U_Map1(U_KA, U_CtxDelEmpty), U_T(U_Map1(U_KA, U_I("5")), "notnew"),
             U_Map1(U_KA, U_T(U_I("5"), "notnew")), U_Map1(U_KA, U_Map1(U_KA, U_Call("vmod.rec", <<>>))), U_Map1(U_KA, U_Call("vmod.rec", <<>>)),
             U_List(<<U_I("5"), U_I("6"), U_I("7")>>), U_T(U_List(<<U_I("5")>>), "merge"), U_List(<<U_Map1(U_KB, U_I("5")), U_I("6")>>),
             U_List(<<U_List(<<U_I("5"), U_I("6")>>)>>), U_T(U_List(<<U_T(U_Map1(U_KB, U_I("5")), "del")>>), "merge"),
@@ -238,6 +241,7 @@ U_MutDel   == U_Chain({U_None, U_D(PrNone, "T", "N", "N", U_Md), U_D(PrNone, "F"
 U_MutNew   == U_Chain(U_DNew, U_DNew, U_DNewZ, {"dict", "list"}, {U_EMap, U_Map1(U_KA, U_I("1"))}, {U_I("1")})
 U_MutSafe  == U_Chain({U_None, U_D(PrNone, "N", "N", "F", U_Md)}, U_DSafe, U_DSafeZ, {"dict", "list"}, {U_I("1"), U_Call("vmod.rec", <<>>), U_EMap}, {U_I("1"), U_Call("vmod.rec", <<>>)})
 U_MutKinds == U_Dec({U_Map1(U_KA, x) : x \in U_Dec(U_KindLeaves \cup {U_Null, U_Apply(U_S("a\\b"), U_D(1, "N", "N", "N", {}))}, U_DKind)}, {U_None})
+U_MutNewP == U_Chain({U_None}, {U_D(PrNone, "N", "F", "N", {}), U_D(PrNone, "N", "F", "N", U_Md)}, U_DNewZ, {"extend", "dict"}, {U_Map1(U_KA, U_I("1"))}, {})
 U_MutKindsP == U_Dec({U_Map1(U_KA, x) : x \in U_KindLeaves}, {U_D(1, "N", "N", "N", {}), U_D(-1, "N", "N", "N", U_Md)})
 \* three-stage histories in the quick tier
 U_Q3 == U_Chain({U_None, U_D(PrNone, "T", "N", "N", U_Md)}, U_DDelZ, U_DDelZ, {"dict", "list"}, {U_I("1"), U_EList}, {U_EList})
